@@ -401,6 +401,14 @@ def suite_flow_model(ctx, res, n):
             env = {"F": lambda key: partial[key], "G": lambda key: C10.FLAG_VALUES[key], "D": lambda key: getattr(C._DEFAULT_CONFIG, key),
                    "C": lambda key: getattr(cfg, key)}
             for f, ml, mw, ma in zip(scalar, m["load"], m["write"], m["again"]):
+                if f in partial and f not in chosen and getattr(got, f) != getattr(cfg, f):
+                    res.add_cex(f"option {f!r}: the configuration the driver resolved has {getattr(cfg, f)!r}; written to TOML and loaded by a build step it is "
+                                f"{getattr(got, f)!r}", {"field": f, "driver": repr(getattr(cfg, f)), "step": repr(getattr(got, f)), "toml_value": repr(written.get(f))},
+                                {"site": "c20-flow-written", "field": f})
+                if getattr(again, f) != getattr(got, f):
+                    res.add_cex(f"option {f!r}: the build step loads {getattr(again, f)!r} from the TOML the driver wrote, the driver resolved {getattr(got, f)!r}",
+                                {"field": f, "flags": chosen, "file_has": f in partial, "driver": repr(getattr(got, f)), "step": repr(getattr(again, f))},
+                                {"site": "c20-flow", "field": f})
                 try:
                     want_load, want_write, want_again = _sym_eval(ml, env), _sym_eval(mw, env), _sym_eval(ma, env)
                 except Exception as e:  # noqa
@@ -412,10 +420,6 @@ def suite_flow_model(ctx, res, n):
                                       {"field": f, "flags": chosen, "file_has": f in partial}, ml, repr(getattr(got, f)))
                 if want_write != written.get(f):
                     res.add_tie_break("config.write vs Model writeToml (which field a TOML key carries)", {"field": f}, mw, repr(written.get(f)))
-                if getattr(again, f) != getattr(got, f):
-                    res.add_cex(f"option {f!r}: the build step loads {getattr(again, f)!r} from the TOML the driver wrote, the driver resolved {getattr(got, f)!r}",
-                                {"field": f, "flags": chosen, "file_has": f in partial, "driver": repr(getattr(got, f)), "step": repr(getattr(again, f))},
-                                {"site": "c20-flow", "field": f})
                 if want_again != want_load:
                     res.add_tie_break("hypothesis ConvLaw of worker_sees_driver_config fails on the real conversions",
                                       {"field": f, "flags": chosen}, {"load": ml, "again": ma}, {"load": repr(want_load), "again": repr(want_again)})
